@@ -529,6 +529,76 @@ pub fn run(tier: &str, seed: u64) -> i32 {
     check_json(&mut t, "BytesED", &byteses().into_iter().take(5).map(BytesED::from).collect::<Vec<_>>());
     check_json(&mut t, "BytecodeED", &codes);
 
+    // --- one field at a time over richer menus (zero / all-ones / lowest bit / highest bit for addresses and
+    // hashes, the boundary integers, every Option both ways), on top of two base values per type ---
+    {
+        let addr_menu: Vec<AddressED> = vec![[0u8; 20].into(), [0xffu8; 20].into(), { let mut a = [0u8; 20]; a[19] = 1; a.into() }, { let mut a = [0u8; 20]; a[0] = 0x80; a.into() }];
+        let hash_menu: Vec<B256ED> = vec![[0u8; 32].into(), [0xffu8; 32].into(), { let mut a = [0u8; 32]; a[31] = 1; a.into() }, { let mut a = [0u8; 32]; a[0] = 0x80; a.into() }];
+        let int_menu: Vec<u64> = u64s();
+        let big_menu: Vec<U256> = u256s.clone();
+        let str_menu: Vec<Option<String>> = vec![None, Some(String::new()), Some("é✓".into()), Some(format!("{}i0", "ab".repeat(32)))];
+        // TxED
+        let mut v: Vec<TxED> = Vec::new();
+        for base in [txs[0].clone(), txs[txs.len() - 1].clone()] {
+            for a in &hash_menu { let mut x = base.clone(); x.hash = *a; v.push(x); let mut x = base.clone(); x.block_hash = *a; v.push(x); }
+            for a in &addr_menu { let mut x = base.clone(); x.from = *a; v.push(x); let mut x = base.clone(); x.to = Some(*a); v.push(x); }
+            for i in &int_menu { let mut x = base.clone(); x.nonce = (*i).into(); v.push(x); let mut x = base.clone(); x.gas = (*i).into(); v.push(x); let mut x = base.clone(); x.block_number = Some((*i).into()); v.push(x); let mut x = base.clone(); x.transaction_index = Some((*i).into()); v.push(x); }
+            for b in &big_menu { let mut x = base.clone(); x.r = (*b).into(); v.push(x); let mut x = base.clone(); x.s = (*b).into(); v.push(x); }
+            for b in byteses() { let mut x = base.clone(); x.input = b.into(); v.push(x); }
+            for st in &str_menu { let mut x = base.clone(); x.inscription_id = st.clone(); v.push(x); }
+            let mut x = base.clone(); x.to = None; v.push(x);
+            let mut x = base.clone(); x.block_number = None; x.transaction_index = None; v.push(x);
+        }
+        check_codec(&mut t, "TxED (one field at a time)", &v, cap);
+        check_json(&mut t, "TxED (one field at a time)", &v);
+        // TxReceiptED
+        let mut v: Vec<TxReceiptED> = Vec::new();
+        for base in [rcs[0].clone(), rcs[rcs.len() - 1].clone()] {
+            for a in &hash_menu { let mut x = base.clone(); x.block_hash = *a; v.push(x); let mut x = base.clone(); x.transaction_hash = *a; v.push(x); }
+            for a in &addr_menu { let mut x = base.clone(); x.from = *a; v.push(x); let mut x = base.clone(); x.to = Some(*a); v.push(x); let mut x = base.clone(); x.contract_address = Some(*a); v.push(x); }
+            for i in &int_menu { let mut x = base.clone(); x.gas_used = (*i).into(); v.push(x); let mut x = base.clone(); x.block_number = (*i).into(); v.push(x); let mut x = base.clone(); x.transaction_index = (*i).into(); v.push(x); let mut x = base.clone(); x.cumulative_gas_used = (*i).into(); v.push(x); }
+            let mut x = base.clone(); x.to = None; x.contract_address = None; v.push(x);
+            for st in [0u8, 1] { let mut x = base.clone(); x.status = st.into(); v.push(x); }
+        }
+        check_codec(&mut t, "TxReceiptED (one field at a time)", &v, cap);
+        check_json(&mut t, "TxReceiptED (one field at a time)", &v);
+        // LogED
+        let mut v: Vec<LogED> = Vec::new();
+        for base in [lg[0].clone(), lg[lg.len() - 1].clone()] {
+            for a in &addr_menu { let mut x = base.clone(); x.address = *a; v.push(x); }
+            for a in &hash_menu { let mut x = base.clone(); x.transaction_hash = *a; v.push(x); let mut x = base.clone(); x.block_hash = *a; v.push(x); let mut x = base.clone(); x.topics = vec![*a]; v.push(x); let mut x = base.clone(); x.topics = vec![*a, hash_menu[0], *a, hash_menu[1]]; v.push(x); }
+            for i in &int_menu { let mut x = base.clone(); x.transaction_index = (*i).into(); v.push(x); let mut x = base.clone(); x.block_number = (*i).into(); v.push(x); let mut x = base.clone(); x.log_index = (*i).into(); v.push(x); }
+            for b in byteses() { let mut x = base.clone(); x.data = b.into(); v.push(x); }
+        }
+        check_codec(&mut t, "LogED (one field at a time)", &v, cap);
+        check_json(&mut t, "LogED (one field at a time)", &v);
+        // TraceED
+        let mut v: Vec<TraceED> = Vec::new();
+        for base in [trs[0].clone(), trs[trs.len() - 1].clone()] {
+            for a in &addr_menu { let mut x = base.clone(); x.from = *a; v.push(x); let mut x = base.clone(); x.to = Some(*a); v.push(x); }
+            let mut x = base.clone(); x.to = None; v.push(x);
+            for b in &big_menu { let mut x = base.clone(); x.gas = (*b).into(); v.push(x); let mut x = base.clone(); x.gas_used = (*b).into(); v.push(x); let mut x = base.clone(); x.value = (*b).into(); v.push(x); }
+            for b in byteses().into_iter().take(5) { let mut x = base.clone(); x.input = b.clone().into(); v.push(x); let mut x = base.clone(); x.output = b.into(); v.push(x); }
+            for st in &str_menu { let mut x = base.clone(); x.error = st.clone(); v.push(x); let mut x = base.clone(); x.revert_reason = st.clone(); v.push(x); let mut x = base.clone(); x.tx_type = st.clone().unwrap_or_else(|| "STATICCALL".into()); v.push(x); }
+        }
+        check_codec(&mut t, "TraceED (one field at a time)", &v, cap);
+        check_json(&mut t, "TraceED (one field at a time)", &v);
+        // BlockResponseED
+        let mut v: Vec<BlockResponseED> = Vec::new();
+        for base in [blks[0].clone(), blks[blks.len() - 1].clone()] {
+            for a in &hash_menu { let mut x = base.clone(); x.hash = *a; v.push(x); let mut x = base.clone(); x.parent_hash = *a; v.push(x); let mut x = base.clone(); x.transactions_root = *a; v.push(x); let mut x = base.clone(); x.transactions = either::Either::Left(vec![*a, hash_menu[1], *a]); v.push(x); }
+            for i in &int_menu { let mut x = base.clone(); x.gas_used = (*i).into(); v.push(x); let mut x = base.clone(); x.number = (*i).into(); v.push(x); let mut x = base.clone(); x.timestamp = (*i).into(); v.push(x); let mut x = base.clone(); x.mine_timestamp = U128ED::from(((*i as u128) << 64) | *i as u128); v.push(x); }
+        }
+        check_codec(&mut t, "BlockResponseED (one field at a time)", &v, cap);
+        check_json(&mut t, "BlockResponseED (one field at a time)", &v);
+        // Option<AddressED> / Option<B256ED> on their own
+        let mut oa: Vec<Option<AddressED>> = vec![None];
+        oa.extend(addr_menu.iter().map(|a| Some(*a)));
+        check_codec(&mut t, "Option<AddressED>", &oa, cap);
+        let mut oh: Vec<Option<B256ED>> = vec![None];
+        oh.extend(hash_menu.iter().map(|a| Some(*a)));
+        check_codec(&mut t, "Option<B256ED>", &oh, cap);
+    }
     // --- long sequences: the element count needs more than one byte (and more than a small integer type) ---
     for n in [255usize, 256, 257, 65_537] {
         let v: Vec<B256ED> = (0..n).map(|k| { let mut b = [0u8; 32]; b[28..].copy_from_slice(&(k as u32).to_be_bytes()); B256ED::from(b) }).collect();
